@@ -83,7 +83,8 @@ def run(ctx):
             ty = rnd.choice(list(gs.NUMERIC))
             vals, packed = gs.raw_values(rnd, ty, n)
             cut = rnd.randint(0, n)
-            segs = gs.one_channel_file(ty, [packed[:cut], packed[cut:]] if rnd.random() < 0.5 else [packed], cp, gp, rp, big=rnd.random() < 0.3)
+            segs = gs.one_channel_file(ty, [packed[:cut], packed[cut:]] if rnd.random() < 0.5 else [packed], cp, gp, rp, big=rnd.random() < 0.3,
+                                         order=rnd.choice(["rgc", "rgc", "cgr", "late"]))
         e = model.ask(gen_files.to_line(segs))
         if not e.get("ok") or not e.get("wf"):
             disagreements.append(dict(what="generated scaling file is not well-formed: %s" % str(e)[:100]))
